@@ -200,12 +200,15 @@ package v2
 
 // Mine, up to the launch of the workers (prefix contract: goroutines, channels and the wait are not
 // analysed): the digest handed to the workers is BLAKE2b-256 of the data, and the two thresholds are those of
-// the data and the target score (not of anything else).
+// the data and the target score (not of anything else). The only return before the workers are launched is the
+// one for a target score of zero (the postcondition of a prefix contract constrains those returns).
 //@ func (w *Worker) Mine(ctx context.Context, data []byte, targetScore uint64) (r uint64, err error)
 //@   prefix
-//@   requires w != nil && w.numWorkers >= 1 && len(data) <= 9223372036854775799 && targetScore != 0
+//@   noframe
+//@   requires w != nil && w.numWorkers >= 1 && len(data) <= 9223372036854775799
+//@   ensures targetScore == 0 && r == 0 && isnil(err)
 //@   requires (mathint(len(data)) + 8) * mathint(targetScore) <= 18446744073709551615
-//@   check   forall(j, 0, 32, powDigest[j] == blake2b256(data)[j])
+//@   check   targetScore != 0 && forall(j, 0, 32, powDigest[j] == blake2b256(data)[j])
 //@   check   0 <= sufficientTrailing && sufficientTrailing <= 41 && pow(3, sufficientTrailing) >= (mathint(len(data)) + 8) * mathint(targetScore) && implies(sufficientTrailing > 0, pow(3, sufficientTrailing - 1) < (mathint(len(data)) + 8) * mathint(targetScore))
 //@   check   target != nil && *target == pow(3, 243) / ((mathint(len(data)) + 8) * mathint(targetScore) + 1)
 
